@@ -97,6 +97,11 @@ pub fn plan_open(path: &str, o: OpenOutcome) {
     with(|w| line(w, path).plan.push_back(o))
 }
 
+/// the baud rate the port was last opened with
+pub fn line_baud(path: &str) -> u32 {
+    with(|w| line(w, path).baud)
+}
+
 pub fn clear_plan(path: &str) {
     with(|w| line(w, path).plan.clear());
 }
